@@ -33,6 +33,8 @@ func main() {
 		cmdPair(os.Args[2:])
 	case "parse":
 		cmdParse(os.Args[2:])
+	case "proc":
+		cmdProc(os.Args[2:])
 	default:
 		fmt.Fprintln(os.Stderr, "unknown subcommand", os.Args[1])
 		os.Exit(2)
@@ -381,4 +383,64 @@ func cmdParse(args []string) {
 	}
 	of.Close()
 	fmt.Printf("RAN scenarios=%d inconclusive=0\n", len(scs))
+}
+
+func cmdProc(args []string) {
+	fs := flag.NewFlagSet("proc", flag.ExitOnError)
+	scen := fs.String("scen", "", "scenario ndjson file")
+	out := fs.String("out", "", "trace ndjson output")
+	par := fs.Int("par", 16, "parallel")
+	fs.Parse(args)
+	f, err := os.Open(*scen)
+	if err != nil {
+		fatal(err)
+	}
+	var scs []drv.ProcScenario
+	rd := bufio.NewScanner(f)
+	rd.Buffer(make([]byte, 1<<20), 1<<26)
+	for rd.Scan() {
+		var sc drv.ProcScenario
+		if err := json.Unmarshal(rd.Bytes(), &sc); err != nil {
+			fatal(err)
+		}
+		scs = append(scs, sc)
+	}
+	f.Close()
+	res := make([][]drv.Ev, len(scs))
+	inc := make([]string, len(scs))
+	var wg sync.WaitGroup
+	sem := make(chan struct{}, *par)
+	for i := range scs {
+		wg.Add(1)
+		sem <- struct{}{}
+		go func(i int) {
+			defer wg.Done()
+			defer func() { <-sem }()
+			res[i], inc[i] = drv.RunProc(scs[i])
+		}(i)
+	}
+	wg.Wait()
+	of, err := os.Create(*out)
+	if err != nil {
+		fatal(err)
+	}
+	nInc, nDrift := 0, 0
+	for i := range scs {
+		if inc[i] != "" {
+			nInc++
+			fmt.Printf("INCONCLUSIVE tr=%d %s\n", scs[i].Tr, inc[i])
+			continue
+		}
+		for _, e := range res[i] {
+			if e["e"] == "drift" {
+				nDrift++
+				break
+			}
+		}
+		if err := drv.WriteTrace(of, res[i]); err != nil {
+			fatal(err)
+		}
+	}
+	of.Close()
+	fmt.Printf("RAN scenarios=%d inconclusive=%d drift=%d\n", len(scs), nInc, nDrift)
 }
